@@ -398,10 +398,22 @@ func randPoint(g *fw.Gen) weier.Pt {
 		}
 	}
 	switch g.Rng.Intn(6) {
-	case 0:
+	case 0: // the generator and the points that share a coordinate with it: -G (same x), (beta*Gx, +-Gy) (same y)
+		switch g.Rng.Intn(5) {
+		case 0:
+			return mc.Neg(mc.G())
+		case 1:
+			return betaPoint(mc.G(), g.Rng.Intn(2) == 0)
+		case 2:
+			return mc.Neg(betaPoint(mc.G(), g.Rng.Intn(2) == 0))
+		}
 		return mc.G()
 	case 1:
-		return mc.BaseMul(big.NewInt(int64(1 + g.Rng.Intn(20))))
+		pt := mc.BaseMul(big.NewInt(int64(1 + g.Rng.Intn(20))))
+		if g.Rng.Intn(2) == 0 {
+			pt = mc.Neg(pt)
+		}
+		return pt
 	case 2:
 		return mc.BaseMul(new(big.Int).SetBytes(g.Bytes(32)))
 	default:
